@@ -1,3 +1,4 @@
+import Oidc.Shapes
 import Oidc.Proofs.SessionHist
 import Oidc.Facts
 /-! # C07 — session cookies read back exactly what was last written, across any history (property theorems only)
@@ -66,5 +67,25 @@ def exHist : List (Int × List W) := [(0, [.tok .access "abcdefgh".toList, .emai
 example : (fieldsOf exD (getSession 100 (runHist exC 100 3 8 (fun _ => none) exHist) 6 8)).tok .access = "ab".toList := by decide
 example : ((getSession 100 (runHist exC 100 3 8 (fun _ => none) [(0, [.tok .access "abcdefgh".toList, .email "e".toList])]) 1 8).chunks .access).length = 3 := by decide +kernel
 example : (fieldsOf exD (getSession 100 (runHist exC 100 3 8 (fun _ => none) exHist) 6 8)).email = "e".toList := by decide
+
+/-! obligations against the regenerated program text of session.go: the functions these theorems rest on read, statement for
+    statement, as they did when the session model was written after them (`Oidc/Shapes.lean`) -/
+theorem text_compressToken_ok : Oidc.Shapes.Text_compressToken := by unfold Oidc.Shapes.Text_compressToken; rfl
+theorem text_decompressToken_ok : Oidc.Shapes.Text_decompressToken := by unfold Oidc.Shapes.Text_decompressToken; rfl
+theorem text_SessionManager_GetSession_ok : Oidc.Shapes.Text_SessionManager_GetSession := by unfold Oidc.Shapes.Text_SessionManager_GetSession; rfl
+theorem text_SessionManager_getTokenChunkSessions_ok : Oidc.Shapes.Text_SessionManager_getTokenChunkSessions := by unfold Oidc.Shapes.Text_SessionManager_getTokenChunkSessions; rfl
+theorem text_SessionData_Save_ok : Oidc.Shapes.Text_SessionData_Save := by unfold Oidc.Shapes.Text_SessionData_Save; rfl
+theorem text_SessionData_deleteStaleChunkCookies_ok : Oidc.Shapes.Text_SessionData_deleteStaleChunkCookies := by unfold Oidc.Shapes.Text_SessionData_deleteStaleChunkCookies; rfl
+theorem text_SessionData_Clear_ok : Oidc.Shapes.Text_SessionData_Clear := by unfold Oidc.Shapes.Text_SessionData_Clear; rfl
+theorem text_SessionData_clearTokenChunks_ok : Oidc.Shapes.Text_SessionData_clearTokenChunks := by unfold Oidc.Shapes.Text_SessionData_clearTokenChunks; rfl
+theorem text_SessionData_GetAccessToken_ok : Oidc.Shapes.Text_SessionData_GetAccessToken := by unfold Oidc.Shapes.Text_SessionData_GetAccessToken; rfl
+theorem text_SessionData_SetAccessToken_ok : Oidc.Shapes.Text_SessionData_SetAccessToken := by unfold Oidc.Shapes.Text_SessionData_SetAccessToken; rfl
+theorem text_SessionData_GetRefreshToken_ok : Oidc.Shapes.Text_SessionData_GetRefreshToken := by unfold Oidc.Shapes.Text_SessionData_GetRefreshToken; rfl
+theorem text_SessionData_SetRefreshToken_ok : Oidc.Shapes.Text_SessionData_SetRefreshToken := by unfold Oidc.Shapes.Text_SessionData_SetRefreshToken; rfl
+theorem text_SessionData_expireAccessTokenChunks_ok : Oidc.Shapes.Text_SessionData_expireAccessTokenChunks := by unfold Oidc.Shapes.Text_SessionData_expireAccessTokenChunks; rfl
+theorem text_SessionData_expireRefreshTokenChunks_ok : Oidc.Shapes.Text_SessionData_expireRefreshTokenChunks := by unfold Oidc.Shapes.Text_SessionData_expireRefreshTokenChunks; rfl
+theorem text_splitIntoChunks_ok : Oidc.Shapes.Text_splitIntoChunks := by unfold Oidc.Shapes.Text_splitIntoChunks; rfl
+theorem text_SessionData_GetAuthenticated_ok : Oidc.Shapes.Text_SessionData_GetAuthenticated := by unfold Oidc.Shapes.Text_SessionData_GetAuthenticated; rfl
+theorem text_SessionData_SetAuthenticated_ok : Oidc.Shapes.Text_SessionData_SetAuthenticated := by unfold Oidc.Shapes.Text_SessionData_SetAuthenticated; rfl
 
 end Oidc.Props.C07
